@@ -54,7 +54,7 @@ def b_moments_flagged(ctx):
 
 def main(tier, seed):
     quick = tier == "quick"
-    items = standard_items(seed, tier, 8, 40, bench_quick=3, ngoals=4, corpus_quick=9, ps_quick=6, ps_thorough=60)
+    items = standard_items(seed, tier, 5, 40, bench_quick=2, ngoals=4, corpus_quick=6, ps_quick=3, ps_thorough=60)
     # declared instead of inferred types: generated programs know the value sets of their finite variables
     extra = []
     for it in items:
@@ -64,9 +64,9 @@ def main(tier, seed):
             types = dict(g.fvals)
             text = gen.render(gen.to_text_template(T), types={k: v for k, v in types.items()})
             extra.append(dict(it, id=it["id"] + "-declared", text=text, types=types, user_typed=sorted(types)))
-    items += extra[: (4 if quick else 20)]
+    items += extra[: (3 if quick else 20)]
     # Normal / Uniform / Laplace draws with state-dependent location (decided through moment-matched finite laws)
-    items += C.generated(seed + 13, 4 if quick else 15, profile={"cont": True, "params": False, "sym_init": False}, ngoals=4, prefix="genk")
+    items += C.generated(seed + 13, 3 if quick else 15, profile={"cont": True, "params": False, "sym_init": False}, ngoals=4, prefix="genk")
     # declared instead of inferred types on variables that are assigned more than once per iteration
     body = "x = 0\ny = 0\nz = 0\nwhile true:\n    x = Bernoulli(1/2)\n    if x == 1:\n        y = y + 1\n    end\n    z = z + x**2\n    x = 2*x\nend\n"
     body2 = "f = 1\ns = 0\nwhile true:\n    f = DiscreteUniform(1, 3)\n    s = s + f**3\n    f = f - 1\n    if f == 0:\n        s = s + 1\n    end\n    f = 2*f\nend\n"
